@@ -111,7 +111,10 @@ var ledgerSpecs = []ledgerSpec{
 		if tier == "thorough" {
 			d = 5
 		}
+		cf := func(l string) ledger.TxSpec { return ledger.TxSpec{Label: l, From: "R", To: "B", Data: "filler"} }
+		drain := []string{"P:0:t1", "P:0:c1", "P:0:c2", "P:0:c3"}
 		return []ledgerRun{
+			{"drain-to-zero+two-truncations", ledger.Cfg{Nodes: []string{"G"}, Supply: sp(10, 0), Menu: []ledger.TxSpec{tx("tz", "A", "B", 6, 0), cf("c4"), cf("c5"), cf("c6")}, Hidden: []ledger.TxSpec{t1}, Truncate: true, Prefix: drain, Props: only("C06")}, d + 2, 0, 0},
 			{"two-nodes", ledger.Cfg{Nodes: []string{"G", "N1"}, Supply: sp(10, 0), Menu: []ledger.TxSpec{t1, t2, t3, tx("tself", "A", "A", 1, 0)}, Props: only("C06")}, d, 0, 0},
 			{"truncated", ledger.Cfg{Nodes: []string{"G"}, Supply: sp(10, 0), Menu: []ledger.TxSpec{t1, t3, t5, t7}, Crafted: []ledger.TxSpec{tx("side", "R", "B", 1, 0)}, Truncate: true, Props: only("C06")}, d + 1, 0, 0},
 		}
@@ -123,7 +126,11 @@ var ledgerSpecs = []ledgerSpec{
 		}
 		// node 0 keeps an own side tip s (t7 on p1) while node 1's chain p2..p5 is delivered to it: two unmerged branches
 		unmerged := []string{"P:0:p1", "D:1:0", "P:1:p2", "P:1:p3", "P:1:p4", "P:1:p5", "P:0:t7", "D:0:1", "D:0:2", "D:0:3", "D:0:4"}
+		cf := func(l string) ledger.TxSpec { return ledger.TxSpec{Label: l, From: "R", To: "B", Data: "filler"} }
+		drain := []string{"P:0:t1", "P:0:c1", "P:0:c2", "P:0:c3"}
 		return []ledgerRun{
+			// a wallet is checkpointed with funds, then spends exactly all of them, then is checkpointed again
+			{"drain-to-zero+two-truncations", ledger.Cfg{Nodes: []string{"G"}, Supply: sp(10, 0), Menu: []ledger.TxSpec{tx("tz", "A", "B", 6, 0), cf("c4"), cf("c5"), cf("c6")}, Hidden: []ledger.TxSpec{t1}, Truncate: true, Prefix: drain, Props: only("C07")}, d, 0, 0},
 			{"unmerged-branches", ledger.Cfg{Nodes: []string{"G", "N1"}, Supply: sp(10, 0), Menu: []ledger.TxSpec{t1, t3}, Hidden: []ledger.TxSpec{t7}, MaxProposeNodes: 1, Truncate: true, Prefix: unmerged, Props: only("C07")}, d - 2, 0, 0},
 			{"chain+side-branch", ledger.Cfg{Nodes: []string{"G"}, Supply: sp(10, 0), Menu: []ledger.TxSpec{t1, t3, t7, t4}, Crafted: []ledger.TxSpec{tx("side", "R", "B", 1, 0)}, Truncate: true, Props: only("C07")}, d, 0, 0},
 			{"two-nodes", ledger.Cfg{Nodes: []string{"G", "N1"}, Supply: sp(10, 0), Menu: []ledger.TxSpec{t1, t3, t7}, Truncate: true, MaxProposeNodes: 1, Props: only("C07")}, d, 0, 0},
@@ -136,6 +143,9 @@ var ledgerSpecs = []ledgerSpec{
 		}
 		return []ledgerRun{
 			{"two-nodes+overdraw+truncate+dup", ledger.Cfg{Nodes: []string{"G", "N1"}, Supply: sp(10, 0), Menu: []ledger.TxSpec{t1, t2, t3}, Crafted: []ledger.TxSpec{mx}, Truncate: true, Dup: true, Tick: true, Props: only("C09")}, d, 0, 0},
+			// data-only vertices and transfers mixed, truncated from a non-initial history
+			{"contracts+transfers+truncate", ledger.Cfg{Nodes: []string{"G"}, Supply: sp(10, 0), Menu: []ledger.TxSpec{t1, t3, {Label: "cx", From: "R", To: "B", Data: "d"}, {Label: "cy", From: "A", To: "B", Data: "d"}},
+				Truncate: true, Prefix: []string{"P:0:c1", "P:0:p1", "P:0:c2"}, Props: only("C09")}, d, 0, 0},
 		}
 	}},
 	{id: "C10", level: "model_checking", runs: func(tier string) []ledgerRun {
@@ -145,6 +155,12 @@ var ledgerSpecs = []ledgerSpec{
 		}
 		return []ledgerRun{
 			{"sealing-rules", ledger.Cfg{Nodes: []string{"G", "N1"}, Supply: sp(10, 0), Menu: []ledger.TxSpec{t8, t9, t10, te}, Crafted: []ledger.TxSpec{ms}, Tick: true, Props: only("C10")}, d, 0, 0},
+			// the same rules for data-only (contract) transactions and for vertices crafted by an outside sealer:
+			// genesis wallet as issuer of a contract / of a transfer, node wallet as issuer of a contract, self-sealed contract
+			{"sealing-rules-contracts+crafted", ledger.Cfg{Nodes: []string{"G", "N1"}, Supply: sp(10, 0),
+				Menu:    []ledger.TxSpec{{Label: "gd", From: "G", To: "A", Data: "d"}, {Label: "nd", From: "N1", To: "A", Data: "d"}, t1},
+				Crafted: []ledger.TxSpec{{Label: "mgd", From: "G", To: "A", Data: "d"}, tx("mgs", "G", "A", 1, 0), {Label: "msd", From: "M", To: "A", Data: "d"}},
+				Tick:    true, Props: only("C10")}, d, 0, 0},
 		}
 	}},
 	{id: "C14", level: "model_checking", runs: func(tier string) []ledgerRun {
@@ -189,6 +205,12 @@ func withPrefixTxs(c ledger.Cfg) ledger.Cfg {
 			l := fmt.Sprintf("p%d", i)
 			if !have[l] {
 				c.Hidden = append(c.Hidden, tx(l, "R", "A", 1, 0))
+			}
+		}
+		for i := 1; i <= 3; i++ {
+			l := fmt.Sprintf("c%d", i)
+			if !have[l] {
+				c.Hidden = append(c.Hidden, ledger.TxSpec{Label: l, From: "R", To: "B", Data: "filler"})
 			}
 		}
 	}
